@@ -564,6 +564,8 @@ def _bi_bytes(E, args, kwargs, st, node):
 def _bi_set(E, args, kwargs, st, node):
     if not args:
         return [(st, LitSet(()))]
+    if isinstance(args[0], (LitSet, SetV)):
+        return [(st, args[0])]          # a copy of a set: the same value (sets are values here, never shared mutably)
     items = E.static_items(args[0])
     if items is None:
         raise EngineError("set() of a sequence of symbolic length")
@@ -642,8 +644,36 @@ def _bi_iter(E, args, kwargs, st, node):
     return [(st, args[0])]
 
 
+def _namedtuple_fields(cnode):
+    """fields of `class X(namedtuple("X", fields))`, or None"""
+    for b in cnode.bases:
+        if isinstance(b, ast.Call) and (getattr(b.func, "attr", None) == "namedtuple" or getattr(b.func, "id", None) == "namedtuple") and len(b.args) >= 2:
+            fa = b.args[1]
+            if isinstance(fa, ast.Constant) and isinstance(fa.value, str):
+                return fa.value.replace(",", " ").split()
+            if isinstance(fa, (ast.List, ast.Tuple)) and all(isinstance(e, ast.Constant) and isinstance(e.value, str) for e in fa.elts):
+                return [e.value for e in fa.elts]
+    return None
+
+
 def _bi_super(E, args, kwargs, st, node):
-    from .engine import SuperProxy, ClassRef
+    from .engine import SuperProxy, ClassRef, ExternalMethod
+    if len(args) == 2 and isinstance(args[0], ClassRef) and isinstance(args[1], ClassRef) and _namedtuple_fields(args[0].node) is not None:
+        # super(X, cls) inside X.__new__ of a namedtuple subclass: its __new__(cls, *fields) makes the record
+        fields = _namedtuple_fields(args[0].node)
+        clsname = args[0].node.name
+
+        def _tuple_new(E2, obj, a, kw, st2, node2):
+            a = list(a)[1:]          # (cls, field values...)
+            if len(a) > len(fields) or any(k not in fields for k in kw) or len(a) + len(kw) != len(fields):
+                raise EngineError("bad arguments for namedtuple class %s" % clsname)
+            vals = dict(zip(fields, a))
+            vals.update(kw)
+            if not hasattr(E2, "namedtuples"):
+                E2.namedtuples = {}
+            E2.namedtuples[clsname] = tuple(fields)
+            return [(st2, ObjV(clsname, vals), None)]
+        return [(st, ObjV("super:" + clsname, {"__new__": ExternalMethod(_tuple_new, None, "__new__")}))]
     if len(args) != 2 or not isinstance(args[0], ClassRef) or not isinstance(args[1], ObjV):
         raise EngineError("super() form not modelled")
     return [(st, SuperProxy(args[1], args[0].node.name))]
@@ -925,6 +955,12 @@ def construct(E, cref, args, kwargs, st, node):
     # namedtuple-like classes created by assignment are not ClassDefs; real classes:
     init = E.find_method(clsname, "__init__")
     obj = ObjV(clsname, {})
+    new_m = E.find_method(clsname, "__new__")
+    if init is None and new_m is not None and _namedtuple_fields(cref.node) is not None:
+        # class X(namedtuple(...)) with a __new__ of its own (normalising its arguments): the real __new__ is executed with
+        # cls bound to the class; the record is made by its call of super(X, cls).__new__(cls, ...)
+        fvn = new_m[0]
+        return E.call_function(fvn, [cref] + list(args), kwargs, st, node)
     if init is None and E.find_method(clsname, "__new__") is None:
         # class X(collections.namedtuple("X", [...fields...])) without a constructor of its own: a record of those fields
         for b in cref.node.bases:
